@@ -216,17 +216,22 @@ func C20(p *core.Program, r *core.Report) {
 				fmt.Sprintf("%d builder calls for element nodes, %d only reachable when SkipUnlikelies is set", n, len(traces)), traces...)
 		}
 		// readers of the patterns / role table
+		var convInl *ssa.Function
+		if cf := p.Func("(*" + core.ExpandKey(converterPkg) + ".DomConverter).Convert"); cf != nil {
+			convInl = p.Inlined(cf)
+		}
 		for _, g := range []struct{ name, content string }{{"the unlikely-candidates pattern", rxUnlikely}, {"the ok-maybe pattern", rxOkMaybe}, {"the unlikely-roles table", unlikelyRoleSet}} {
 			users := globalReaderFuncs(p, core.ExpandKey(converterPkg), g.content)
 			ok := len(users) >= 1 || (g.content == unlikelyRoleSet && roleAsSwitch) // no table: the set is spelled out in the visitor
 			var names []string
 			for _, u := range users {
 				names = append(names, core.ShortKey(u))
-				if !inRegion(p, ve, u) {
+				// the visitor and the pruning pass of Convert (F8) are the two places that prune
+				if !inRegion(p, ve, u) && !(convInl != nil && inRegion(p, convInl, u)) {
 					ok = false
 				}
 			}
-			r.Add("F3", g.name+" is read only by the element visitor", "", ok, fmt.Sprintf("readers: %v", names))
+			r.Add("F3", g.name+" is read only by the element visitor and the pruning pass", "", ok, fmt.Sprintf("readers: %v", names))
 		}
 	}
 	// ---- F5: "otherwise the distiller ignores those markers altogether": a class/id value that
